@@ -182,10 +182,11 @@ class RepeatedNodeWithInterleavingCommentsWrapper(properties.RepeatedNodeWrapper
                 continue
             if comment_set is not None:
                 comment_set.discard(id(item))
-            item.claimed = False
             unclaimed_comments.append(item)
         if comment_set:
             raise ValueError(f'{len(comment_set)} comment(s) not found.')
+        for item in unclaimed_comments:  # only once the whole request is known to be satisfiable
+            item.claimed = False
         self._repeated.items[:] = items
         self._notify()
         return tuple(unclaimed_comments)
